@@ -368,8 +368,9 @@ impl AstLowering {
                                 errors.push(e);
                             }
 
-                            // Generate impl block for all methods (inherited + own)
-                            if !all_methods.is_empty() {
+                            // Generate impl block for all methods (inherited + own). Like models, classes always get one:
+                            // the derived `to_json` / `from_json` methods are added to it during emission.
+                            {
                                 match self.lower_class_methods(&struct_ir.name, &all_methods) {
                                     Ok(mut impl_ir) => {
                                         Self::publish_methods_of_public_type(&struct_ir, &mut impl_ir);
